@@ -13,6 +13,8 @@ from translate.common import TranslatorError
 DEDUP = 'pyglove/core/geno/deduping.py'
 EVO = 'pyglove/ext/evolution/base.py'
 NSGA2 = 'pyglove/ext/evolution/nsga2.py'
+REGEVO = 'pyglove/ext/evolution/regularized_evolution.py'
+HILL = 'pyglove/ext/evolution/hill_climb.py'
 
 
 def _calls(node):
@@ -155,10 +157,40 @@ def nsga2_facts():
   return {'initFactor': init_factor, 'boundaryOverwrites': boundary, 'descending': descending}
 
 
+EXPECTED_PIPELINES = {
+    (REGEVO, 'regularized_evolution'): (
+        ['selectors.Random(tournament_size, seed=seed) >> selectors.Top(1) >> mutator'],
+        {'population_init': '(pg.geno.Random(seed=seed), population_size)',
+         'population_update': 'selectors.Last(population_size)'}),
+    (HILL, 'hill_climb'): (
+        ['selectors.Top(1) >> mutator * batch_size'],
+        {'population_init': '(pg.geno.Random(seed), init_population_size)',
+         'population_update': 'selectors.Top(1)'}),
+}
+
+
+def pipeline_facts():
+  """The operator pipelines of regularized_evolution / hill_climb as mirrored by PgModel/GenOps.lean."""
+  out = {}
+  for (rel, name), (args, kws) in EXPECTED_PIPELINES.items():
+    _, tree = common.parse_source(rel)
+    fn = common.find_func(tree, name)
+    calls = [n for n in ast.walk(fn) if isinstance(n, ast.Call) and ast.unparse(n.func) == 'base.Evolution']
+    if len(calls) != 1:
+      raise TranslatorError('%s(): expected one base.Evolution(...) call' % name)
+    got_args = [ast.unparse(a) for a in calls[0].args]
+    got_kws = {k.arg: ast.unparse(k.value) for k in calls[0].keywords}
+    if got_args != args or got_kws != kws:
+      raise TranslatorError('%s(): operator pipeline changed: args=%s keywords=%s' % (name, got_args, got_kws))
+    out[name] = {'reproduction': args[0], **kws}
+  return out
+
+
 def run():
   forwards, d_info = dedup_facts()
   order, bump, per_call, e_info = evo_facts()
   nf = nsga2_facts()
+  pipes = pipeline_facts()
   lean = '''/- GENERATED by translate/t_c15.py from the current source of /repo — do not edit. -/
 import PgModel.Gen
 import PgModel.Nsga2
@@ -175,8 +207,9 @@ def nsga2Facts : Nsga2.Facts :=
 end Pg.C15
 ''' % (common.lean_bool(forwards), common.lean_bool(order), common.lean_bool(bump), common.lean_bool(per_call),
        nf['initFactor'], common.lean_bool(nf['boundaryOverwrites']), common.lean_bool(nf['descending']))
-  sidecar = {'sources': {DEDUP: common.sha(DEDUP), EVO: common.sha(EVO), NSGA2: common.sha(NSGA2)},
-             'nsga2': nf,
+  sidecar = {'sources': {DEDUP: common.sha(DEDUP), EVO: common.sha(EVO), NSGA2: common.sha(NSGA2),
+                         REGEVO: common.sha(REGEVO), HILL: common.sha(HILL)},
+             'nsga2': nf, 'pipelines': pipes,
              'quirks': {'dedupForwardsReplay': forwards, 'evoProposalOrder': order, 'evoInitGenBump': bump,
                         'evoInitDonePerCall': per_call},
              'matched': {'deduping': d_info, 'evolution': e_info}}
